@@ -14,9 +14,9 @@ from core import enc_bool
 
 PROPERTY = "C18"
 
-# CODE VARIANT FLAGS  (value = what /repo does today; see Cfg in lean/RichModel/Model/Color.lean)
-# 1: downgrade(STANDARD) sends 16-colour WINDOWS / EIGHT_BIT numbers < 16 through EIGHT_BIT_PALETTE and the
-#    palette search (renumbering 8->7, 9->1, 10->2, 12->4);  0: repaired (pending_fixes/C18-*.diff): numbers < 16 kept.
+# CODE VARIANT FLAGS  (value = what /repo does now: the defect is repaired; see Cfg in lean/RichModel/Model/Color.lean)
+# 1: rich 9.10.0 as found: downgrade(STANDARD) sends 16-colour WINDOWS / EIGHT_BIT numbers < 16 through EIGHT_BIT_PALETTE and the
+#    palette search (renumbering 8->7, 9->1, 10->2, 12->4);  0: repaired (fix 2cec9e1 = pending_fixes/C18-*.diff): numbers < 16 kept.
 STD_VIA_PALETTE = 0
 
 NPROC = 16
@@ -128,7 +128,7 @@ def run(ctx):
         "in the thorough tier)",
         "math.sqrt is strictly increasing on 0..700,000 (every radicand of get_color_distance is <= 649,740): checked exhaustively each run, "
         "so the argmin over sqrt(d2) is the argmin over the integer d2",
-        "functools.lru_cache on Color.downgrade / get_ansi_codes / Palette.match is transparent (cached and __wrapped__ answers compared, not modelled)",
+        "functools.lru_cache on Color.downgrade / get_ansi_codes / Palette.match is transparent (answers of the cached function and of the function behind the cache - getattr(f, '__wrapped__', f) - compared, not modelled)",
         "Color.get_truecolor is modelled for the default terminal theme only",
         "colour numbers / components are naturals; negative numbers and components above 255 answer `unmodelled`",
     ]
@@ -340,8 +340,8 @@ MANIFEST = {
     "Palette.match, none of which enumerates colours: downgrade of any well-formed colour to any system never raises and lands in the "
     "system's gamut (downgrade_in_gamut); idempotence for every colour, palette and code variant (downgrade_idem); native colours and the "
     "default colour returned unchanged (downgrade_fixed_if_native, default_stays); 16-colour indices kept by the 16-colour targets "
-    "(downgrade_fixed_if_representable, proved for the repaired variant; old_downgrade_standard_renumbers is the machine-checked witness that "
-    "today's code turns WINDOWS colour 8 into STANDARD colour 7); Palette.match is the first argmin of the weighted-RGB metric for every "
+    "(downgrade_fixed_if_representable, proved for the repaired variant, which /repo contains now; old_downgrade_standard_renumbers is the "
+    "machine-checked witness that rich 9.10.0 as found, before fix 2cec9e1, turned WINDOWS colour 8 into STANDARD colour 7); Palette.match is the first argmin of the weighted-RGB metric for every "
     "palette (match_is_argmin, match_total, nearest_unique) and downgrade to standard/windows returns that argmin of the source triplet "
     "(downgrade_picks_nearest); truecolor->256 lands in 16..255, on the grey ramp / black / white when the saturation test says grey and for "
     "every r=g=b, else on the cube entry with coordinates (c+25)/51 (eight_bit_number_range, grey_on_ramp); SGR parameters are 39/49, "
@@ -350,15 +350,16 @@ MANIFEST = {
     "Tie: quick = all 32,896 (max,min) channel pairs (float facts directly and through Color.downgrade in every channel arrangement), all 256 "
     "channel values, all 256 numbers x 3 indexed types + default + ill-formed colours x 4 systems x fg/bg, 30k random RGB, ~85k colours at "
     "palette decision boundaries / exact ties, ~840k compared cases; thorough = additionally all 16,777,216 RGB x {standard, 256, windows} "
-    "through Color.downgrade.__wrapped__ in 16 processes, each also evaluated against an independent integer oracle.",
+    "through the function behind Color.downgrade's lru_cache (getattr(f, '__wrapped__', f): no dependence on the attribute) in 16 processes, each also evaluated against an independent integer oracle.",
     "note": "Partial where the Python runtime carries the truth: c/255.0, colorsys.rgb_to_hls and round() are modelled by exact rational arithmetic "
     "plus a 9-entry exception list for the double-precision saturation test `s < 0.1` (all nine are exact ties, sat_exceptions_are_ties); the "
     "theorems hold for every exception list, the list itself and the rounding formulas are validated exhaustively on every run, not proved. "
     "Palette.match compares integers where the code compares math.sqrt of them: justified by dist2_le (radicand <= 649,740) and an exhaustive "
-    "per-run check that sqrt is strictly increasing on 0..700,000. functools.lru_cache is assumed transparent (cached vs __wrapped__ compared). "
+    "per-run check that sqrt is strictly increasing on 0..700,000. functools.lru_cache is assumed transparent (cached vs uncached function - getattr(f, '__wrapped__', f) - compared). "
     "get_truecolor is modelled for the default terminal theme only and has no theorem. Numbers/components are naturals: negative indices and "
-    "components above 255 answer `unmodelled`. One genuine defect found: downgrade(STANDARD) renumbers 16-colour WINDOWS / EIGHT_BIT(<16) "
-    "colours (8->7, 9->1, 10->2, 12->4); repair in pending_fixes/C18-downgrade-standard-keeps-16-colour-index.diff; until it is applied the "
-    "check prints one VIOLATION (site downgrade:representable, slug downgrade-standard-renumbers-16-colour-index).",
+    "components above 255 answer `unmodelled`. One genuine defect found in rich 9.10.0 as found: downgrade(STANDARD) renumbered 16-colour WINDOWS / EIGHT_BIT(<16) "
+    "colours (8->7, 9->1, 10->2, 12->4); repaired in /repo by fix 2cec9e1 (= pending_fixes/C18-downgrade-standard-keeps-16-colour-index.diff), "
+    "STD_VIA_PALETTE holds the repaired value 0; a regression would print VIOLATION at site downgrade:representable (slug "
+    "downgrade-standard-renumbers-16-colour-index).",
     "design_ref": "DESIGN.md section 7, C18; section 5 (IEEE doubles in Color.downgrade)",
 }
